@@ -141,6 +141,52 @@ def run(rep, idx, tier):
                 wrong = "the address width does not depend on the alignment: two aligned registers do not fit when alignment exceeds ceil_log2(size)"
             elif aw == ctor.parse("max(ceil_log2(S), alignment)", {"S": want_size}):
                 wrong = "no bit for the second register: enable and pending do not both fit"
+        if wrong is None and aw is not None and aw != want:
+            # both widths are closed integer formulas of the register size S and the alignment: tabulate them.  A width that comes out
+            # *smaller* than the required one somewhere is an address space in which the two registers do not fit (named, with the
+            # point); a larger or an equal table proves nothing and stays undecided.
+            def ev(e, S_, al):
+                k = e[0]
+                if e == want_size:
+                    return S_
+                if k == 'const' and isinstance(e[1], int) and not isinstance(e[1], bool):
+                    return e[1]
+                if e == ('name', 'alignment'):
+                    return al
+                if k == 'lin':
+                    return e[1] + sum(cf * ev(t_, S_, al) for t_, cf in e[2])
+                if k == 'bin' and e[1] in ('+', '-', '*', '//', '**', '<<'):
+                    a_, b_ = ev(e[2], S_, al), ev(e[3], S_, al)
+                    return {'+': a_ + b_, '-': a_ - b_, '*': a_ * b_, '//': a_ // b_ if b_ else None, '**': a_ ** b_ if 0 <= b_ < 64 else None,
+                            '<<': a_ << b_ if 0 <= b_ < 64 else None}[e[1]]
+                if k == 'nary' and e[1] == '*':
+                    r_ = 1
+                    for t_ in e[2]:
+                        r_ *= ev(t_, S_, al)
+                    return r_
+                if k == 'call' and e[1] in (('name', 'max'), ('name', 'min')) and not e[3]:
+                    vs = [ev(t_, S_, al) for t_ in e[2]]
+                    return max(vs) if e[1][1] == 'max' else min(vs)
+                if k == 'call' and e[1] == ('name', 'ceil_log2') and len(e[2]) == 1:
+                    n_ = ev(e[2][0], S_, al)
+                    return (n_ - 1).bit_length() if n_ >= 1 else 0
+                if k == 'call' and e[1][0] == 'attr' and e[1][2] == 'bit_length' and not e[2]:
+                    return ev(e[1][1], S_, al).bit_length()
+                raise ValueError(ir.show(e))
+            try:
+                short = None
+                for S_ in range(1, 41):
+                    for al in range(0, 5):
+                        g_, w_ = ev(aw, S_, al), ev(want, S_, al)
+                        if g_ is None or w_ is None:
+                            raise ValueError("unbounded")
+                        if g_ < w_ and short is None:
+                            short = (S_, al, g_, w_)
+                if short is not None:
+                    wrong = (f"with {short[0]} word(s) per mask register and alignment={short[1]} the map is {short[2]} address bit(s) wide where "
+                             f"the two aligned registers need {short[3]}: the second register does not fit and the constructor fails for such event counts")
+            except Exception:
+                pass
         rep.form(aw == want, "C14.2", cs, "address width holds two aligned registers: 1 + max(ceil_log2(reg_size), alignment)",
                  f"addr_width is {ir.show(aw) if aw else None}", wrong=wrong)
         rep.check(kwarg(m1, 'data_width') == ('name', 'data_width') and kwarg(m1, 'alignment') == ('name', 'alignment'),
